@@ -43,6 +43,9 @@ SUB_SOURCES = [
     "if c:\n    x = 7000\n    y = 7001\nelse:\n    x = 7001\nz = 7000\n", "a = [7000, 7001, 7000]\nb = [7001]\n",
     "def f(a):\n    return a + 7000\n\n\nw = f(7001) + 7000\n", "x = 7000\n\n\n# comment\ny = 7000  # trailing\nz = 7001\n",
     "r = 7000 < v < 7001\ns = 7001 < v\n", "k = 7000 + 7001 + 7000\n",
+    # bindings whose text contains backslashes, quotes, braces, format fields, non-ascii
+    "p = f('C:\\\\new\\\\table.txt', 7000)\nq = f('a\\nb', 7001)\n", "p = f(\"it's {x}\", 7000)\nq = f('{{y}}', 7000)\n",
+    "p = f(b'\\x00\\\\', 7000)\nq = f(r'\\d+\\1', 7001)\n", "p = f('\u00e9\\u00e9', 7000)\n",
 ]
 SUB_PATTERNS = [
     ("{{a}} + {{b}}", "{{a}} + {{b}}"), ("{{a}} + {{b}}", "{{b}} + {{a}}"), ("{{a}} + {{a}}", "2 * {{a}}"),
@@ -50,6 +53,7 @@ SUB_PATTERNS = [
     ("x = {{v}}", "x = {{v}}"), ("x = {{v}}", "x = {{v}} + 1"), ("{{t}} = 7000", "{{t}} = 0"), ("7000", "K"),
     ("[{{a}}, {{b}}, {{a}}]", "[{{b}}, {{a}}]"), ("return {{e}}", "return ({{e}})"), ("{{t}} = {{v}}", "{{t}} = {{v}}"),
     ("{{a}} < {{b}}", "{{b}} > {{a}}"), ("x = {{v}}\ny = {{w}}", "y = {{w}}\nx = {{v}}"),
+    ("f({{a}}, {{b}})", "g({{b}}, {{a}})"), ("f({{a}}, 7000)", "f({{a}}, 7000)"), ("{{t}} = f({{a}}, {{b}})", "{{t}} = f({{a}}, {{b}})"),
 ]
 
 
@@ -116,8 +120,12 @@ def ob_sub(pattern, repl, source):
 
     def harness(eng):
         markers.declare(eng, used)
-        tab = eng.path_state["markers"]
-        it = list(pm.finditer(pattern, source))
+        tab = eng.path_state.get("markers")
+        try:
+            it = list(pm.finditer(pattern, source))
+        except Exception as e:  # noqa: BLE001
+            eng.claim(False, info={"what": "finditer raised %s" % type(e).__name__})
+            return
         spans = [(sym.concretize(m.span.start, eng.model()), sym.concretize(m.span.end, eng.model())) for m in it]
         try:
             out = pm.sub(pattern, repl, source)
@@ -297,7 +305,10 @@ def replay(case):
         out_tree = ast.parse(out)
     except SyntaxError:
         return {"reproduced": True, "detail": "sub(%r, %r, %r) = %r does not parse" % (pat, repl, src, out)}
-    it = list(pm.finditer(pat, src))
+    try:
+        it = list(pm.finditer(pat, src))
+    except Exception as e:  # noqa: BLE001
+        return {"reproduced": True, "detail": "finditer(%r, %r) raised %r" % (pat, src, e)}
     spans = [tuple(m.span) for m in it]
     if not it and out != src:
         probs.append("no match but text changed")
